@@ -2,6 +2,7 @@
    (ExtrOcamlBasic only).  The two aliases only give the variants stable OCaml names. *)
 Require Import ExtrOcamlBasic.
 Require Import NS.theories.Utf8 NS.theories.GenLexer NS.theories.Lexer NS.theories.GenParser NS.theories.Parser.
+Require NS.theories.F64.
 Definition lexer_variant_src : Lexer.variant := Lexer.variant_of_source.
 Definition parser_variant_src : Parser.pvariant := Parser.variant_of_source.
 Extraction Language OCaml.
@@ -10,4 +11,5 @@ Extraction "extract/ModelParser.ml"
   GenLexer.tok_name GenLexer.all_toks
   Lexer.lex lexer_variant_src
   GenParser.synerr_msg
-  Parser.parse_program parser_variant_src.
+  Parser.parse_program parser_variant_src Parser.to_lang
+  F64.of_bits F64.to_bits.
